@@ -263,6 +263,36 @@ def bigintent():
     return [Table(3, 17, [list(range(1, 18)), list(range(1, 9)), [1, 2, 17]], 'bigintent3x17')]
 
 
+def mingen(seed, count=40):
+    """Concepts whose MINIMAL generating sets have sizes with gaps (1 and k, 2 and k, ...): property 1 alone generates
+    the concept, and so does the set {c_1..c_k} while no proper subset of it does (one object per c_i lacks exactly
+    c_i); variants add a second singleton generator, a pair generator and noise rows / columns.  Contiguous sizes
+    are what small exhaustive tables and the README example show."""
+    rng = random.Random(f'{seed}:mingen')
+    out = []
+    for k in (3, 4, 5):
+        for variant in range(4):
+            m = 1 + k + (variant >= 2)
+            cs = list(range(2, 2 + k))
+            rows = [list(range(1, m + 1))]                      # g0 has everything
+            rows += [[c for c in cs if c != x] for x in cs]     # lacks exactly one c_i (and property 1)
+            if variant == 1:
+                rows.append(list(range(1, 2 + k)))              # a second object of the target concept
+            if variant >= 2:
+                # property m pairs with c_1 to generate the concept as well (sizes 1, 2 and k)
+                rows[1].append(m)
+                rows.append([1] + cs)
+            if variant == 3:
+                rows.append([])
+            out.append(Table(len(rows), m, rows, f'mingen{k}v{variant}'))
+    for c in range(count):
+        n, m = rng.randint(4, 6), rng.randint(4, 6)
+        rows = [[j + 1 for j in range(m) if rng.random() < 0.6] for _ in range(n)]
+        rows[rng.randrange(n)] = list(range(1, m + 1)) if c % 2 else rows[0]
+        out.append(Table(n, m, rows, f'mingenrand{c}'))
+    return out
+
+
 def colossal(big=False):
     """Lattices far beyond what the TLA+ lattice value can be built for here: hundreds of atoms (nominal scales) and,
     in the thorough tier, 65 537 concepts.  Judged by relational clauses on the library's own extents."""
